@@ -109,6 +109,23 @@ impl Harness {
         self.enc.encode_simple(&msg, 3)
     }
 
+    /// A message of a known type whose body cannot be decoded (too short, or not AMF0).  A session
+    /// may end the connection with an error - the history then ends unjudged - but if the call
+    /// returns normally the byte accounting goes on, for this call too.
+    fn malformed_filler(&mut self, rng: &mut Rng) -> Vec<u8> {
+        let (type_id, data): (u8, Vec<u8>) = match rng.below(7) {
+            0 => (3, vec![0, 1]),
+            1 => (4, vec![0]),
+            2 => (5, vec![0, 0]),
+            3 => (5, vec![]),
+            4 => (6, vec![0, 0, 1]),
+            5 => (20, vec![0x02, 0xFF]),
+            _ => (18, vec![0x03, 0x00, 0x05, 0x61]),
+        };
+        let csid = if type_id >= 18 { 3 } else { 2 };
+        self.enc.encode_simple(&Msg { type_id, msid: 0, ts: 0, data }, csid)
+    }
+
     /// one valid filler message the session tolerates in any state
     fn filler(&mut self, rng: &mut Rng, want: usize) -> Vec<u8> {
         // when a lot of bytes is needed, mostly large opaque messages (cheap to generate)
@@ -175,6 +192,11 @@ fn run_history_from(server: bool, prefix: Option<usize>, announcements: &[(usize
     if semantic {
         out.count("histories_with_protocol_traffic", 1);
     }
+    // one history in six carries messages with undecodable bodies
+    let malformed = rng.chance(1, 6);
+    if malformed {
+        out.count("histories_with_undecodable_message_bodies", 1);
+    }
     let mut log: Vec<Value> = Vec::new();
     let witness = |log: &Vec<Value>| json!({"session": if server { "server" } else { "client" }, "prefix_state": prefix.map(|p| if server { super::sessprep::SERVER_STATES[p] } else { super::sessprep::CLIENT_STATES[p] }), "announcements(call,W)": announcements, "call_sizes": calls, "calls": log});
     for (ci, &n) in calls.iter().enumerate() {
@@ -193,6 +215,9 @@ fn run_history_from(server: bool, prefix: Option<usize>, announcements: &[(usize
             let f = if semantic && rng.chance(1, 8) {
                 semantic_used = true;
                 h.semantic_filler(rng)
+            } else if malformed && rng.chance(1, 10) {
+                semantic_used = true;
+                h.malformed_filler(rng)
             } else {
                 h.filler(rng, need - pending.len())
             };
